@@ -122,7 +122,8 @@ CFG = {
     "exhaustive": {"quick": False, "thorough": False},
     "rustgen": True,
     "shrink": False,
-    "rule": "corpus (DESIGN 4 #6-#10 inputs, trim/framing oddities) first; rt: recipes built by the Lean spec encoders - every "
+    "rule": "EMPTY INPUT TO A FILTER (corruption 9, follow-up to seed C06_11): every filter at every chain position fed zero bytes - raw content empty, or the outer filters legitimately decoding to the empty string (`>`, `~>`, zlib streams of no bytes) - must be rejected except where the empty string is an encoding (ASCII85); "
+            "corpus (DESIGN 4 #6-#10 inputs, trim/framing oddities) first; rt: recipes built by the Lean spec encoders - every "
             "chain of length <= 2 (quick; all 258 chains <= 3 thorough) over {ASCIIHex, ASCII85, Flate-stored, Flate-fixed-Huffman "
             "literal block, Flate-fixed-Huffman LZ77 factorisation closed by an empty block / with a data-carrying final block, "
             "Flate stream of dynamic / fixed / stored blocks from Spec/DeflateDyn.lean} "
